@@ -534,6 +534,9 @@ import (
 // VerifResetEvents resets the process-global event bus between simulated runs.
 func VerifResetEvents() { Events = events{} }
 
+// VerifSubscribeCore registers a handler at the core level (what DeviceLocal does for itself).
+func VerifSubscribeCore(h api.EventHandlerInterface) { _ = Events.subscribe(api.EventHandlerLevelCore, h) }
+
 // VerifEventHandlerCount returns the number of registered handlers.
 func VerifEventHandlerCount() int { return len(Events.handlers) }
 
